@@ -1,12 +1,14 @@
 //! One closed driver per property: alphabet + bound + oracle (DESIGN.md section 3).
 use crate::fw::Tier;
 
+pub mod c09;
 pub mod c10;
 pub mod c11;
 pub mod common;
 
 pub fn run(prop: &str, tier: Tier, seed: u64) -> i32 {
     match prop {
+        "C09" => c09::run(tier, seed),
         "C10" => c10::run(tier, seed),
         "C11" => c11::run(tier, seed),
         _ => {
